@@ -118,7 +118,13 @@ def main():
     broken = []       # obligations / ties that no longer check: dicts {kind, what, detail}
     log = {}
     props_files = meta['props_files']
-    run_root = f'{BUILD}/run/{pid}'
+    run_root = f'{BUILD}/run/{pid}.{os.getpid()}'   # per process: concurrent runs of one property must not delete each other's shards
+    for old in glob.glob(f'{BUILD}/run/{pid}.*'):
+        try:
+            if time.time() - os.path.getmtime(old) > 3600:
+                shutil.rmtree(old, ignore_errors=True)
+        except OSError:
+            pass
     shutil.rmtree(run_root, ignore_errors=True)
     os.makedirs(run_root, exist_ok=True)
 
